@@ -15,4 +15,4 @@ let () =
         | _ -> failwith "frame") (String.split_on_char ',' s) in
     let caller = base_caller frames in
     let p = snapshot_path_gen (get f "trim" = "1") c caller (unhex (get f "test")) (get f "standalone" = "1") in
-    Printf.printf "snappath %d probe=1 cfgsame=1 path=%s\n" idx (hex p))
+    Printf.printf "snappath %d probe=1 cfgsame=1 path=%s first=*\n" idx (hex p))
